@@ -45,6 +45,14 @@ def main():
             c.count(n_eval=1, validated=1)
             if levels <= 512 and "ACCEPTED ACCEPTED" not in out:
                 c.violation("json nesting %d levels rejected: %s" % (levels, out.strip()[:80]), {"kind": "deep", "levels": levels, "out": out})
+    # nesting far beyond any realistic document: the parser recurses once per level (recorded finding json-deep-nesting-recursion)
+    rc, out, err = c.run(["bash", "-c", "ulimit -s 8192; exec %s deep 60000" % asan], timeout=300)
+    if "ACCEPTED" in out or "REJECTED" in out:
+        c.count(n_eval=1, validated=1)
+    else:
+        import re
+        san = re.search(r"AddressSanitizer: ([a-z-]+)", err or "")
+        c.violation("json-deep-nesting-60000 CRASH: %s" % (san.group(1) if san else "signal / rc=%s" % rc), {"kind": "crash", "levels": 60000, "stderr": (err or "")[-1500:]})
     c.finish(rule="every text of length <= %d over {{ }} [ ] \" : , 1 a \\ (3 widths; identical results logged once), random documents "
                   "(all escape forms incl. surrogate pairs, whitespace, numerals, duplicate keys) with every proper prefix, 11 one-unit "
                   "suffixes and every structural bracket swapped/dropped; nesting 512/513/2000; distinct = distinct (width, text)" % (6 if c.thorough else 5),
